@@ -16,14 +16,19 @@ rule = ("scripts = 'l range <min> <max>' followed by 'l data'/'l run' pairs (run
         "equal neighbours frequent) against random ranges, random code and join operands; values are exactly "
         "representable so the comparison is exact; non-trivial = a script in which the code reported at least one "
         "part with a cut or trim fraction or with usr != raw (a range boundary was crossed), or a join that succeeded, "
-        "counted per distinct script")
+        "counted per distinct script; second driver part (C++ layer, harness/drvxx_linepart.cpp): linepart::array::"
+        "set/apply incl. the merge path and polyline::iterator/part::points over every 1-dimensional sequence up to "
+        "length 4 (quick) / 5 (thorough), pairs of sequences for two dimensions, lengths around 65533/131066, and "
+        "random data in up to three dimensions with repeated application; the model driver judges every record list "
+        "with the multi-dimensional form of the property")
 assumptions = [
     "doubles are exchanged only as dyadic fractions (|numerator| < 2^53, denominator <= 2^60); rounding of arbitrary "
     "doubles, infinities and NaN are outside the model (exact rationals)",
     "for the generated operands (numerators < 2^20, denominators <= 2^10) the rounded double quotient and the exact "
     "quotient have the same floor after scaling by 65536",
-    "the caller advances by raw (first loop of linepart::array::apply); the C++ re-apply/merge path of "
-    "mpt++/linepart.cpp is not modelled",
+    "C++ layer: the transformation is a test double of layout::graph::transform3 (part() = mpt_linepart_linear with "
+    "the range of the dimension); polyline::set / apply_data / value_store are not modelled; the C++ sources are "
+    "compiled into the driver with UBSan's vptr check off (buffers are C objects with a hand-made vtable)",
 ]
 trusted = ["hand-written model MptModel/Impl/Linepart.lean tied to mptplot/values/linepart_*.c by harness/drv_linepart.c"]
 
